@@ -254,3 +254,5 @@ def run(chk):
     audit(chk, mod, lib)
     limit_formulas(chk, mod, lib)
     dxlog_series(chk)
+    from . import C11c
+    C11c.run(chk, mod, lib)
